@@ -871,6 +871,19 @@ fn value_grid(rng: &mut ChaCha8Rng) -> Vec<SpyVal> {
     let n = rng.random_range(1..=64);
     v.push(SpyVal::Str((0..n).map(|_| rng.random_range(0x20u8..0x7f) as char).collect()));
     v.push(SpyVal::Str("x".repeat(64)));
+    // lengths around the sizes of inline buffers, one-byte counts and page-sized scratch space;
+    // multi-byte characters so that byte length and character count differ
+    for n in [65usize, 128, 255, 256, 257, 4096] {
+        v.push(SpyVal::Str("y".repeat(n)));
+        v.push(SpyVal::Str("é".repeat(n)));
+    }
+    // short values again after the long ones (scratch state left behind by a long value)
+    v.push(SpyVal::Str("hello".to_string()));
+    v.push(SpyVal::Str("z".to_string()));
+    for n in [65usize, 255, 256, 257, 4096] {
+        v.push(SpyVal::Bytes(vec![0xabu8; n]));
+    }
+    v.push(SpyVal::Bytes(vec![1, 2, 3]));
     for b in [vec![], vec![0u8], vec![0xff], vec![0, 0xff, 0x80, 0x7f], (0..64u8).collect::<Vec<u8>>()] {
         v.push(SpyVal::Bytes(b));
     }
@@ -1023,6 +1036,10 @@ pub fn sweep_mutators(prop: &'static str, seed: u64, rounds: u64) -> CompOutcome
 fn sweep_mutators_round(prop: &'static str, seed: u64, round: u64) -> (Stats, Vec<Found2>) {
     let mut stats = Stats::default();
     let mut found: Vec<Found2> = vec![];
+    // one representative call per (mutator, value) of this round, in execution order (candidates
+    // for the "after" part of a replay)
+    let mut earlier: Vec<MutCase> = vec![];
+    let mut earlier_seen = std::collections::HashSet::new();
     let mut distinct = std::collections::HashSet::new();
     let mut idx = round << 32;
     {
@@ -1041,6 +1058,9 @@ fn sweep_mutators_round(prop: &'static str, seed: u64, round: u64) -> (Stats, Ve
                         // value methods
                         for val in &values {
                             let c = MutCase { kind, unsafe_mode, input: val.clone(), rate, entropy: e.clone(), post_tail: None };
+                            if found.is_empty() && rate == 1.0 && earlier_seen.insert((kind, spyval_json(val).to_string())) {
+                                earlier.push(c.clone());
+                            }
                             idx += 1;
                             stats.evaluations += 1;
                             if idx % 256 == 0 {
@@ -1096,7 +1116,50 @@ fn sweep_mutators_round(prop: &'static str, seed: u64, round: u64) -> (Stats, Ve
         }
     }
     stats.nontrivial = distinct;
+    if let Some(f) = found.first_mut() {
+        stabilise(prop, f, &earlier);
+    }
     (stats, found)
+}
+
+/// evaluate `c` on a fresh thread after executing the cases of `after` there (mutators may keep
+/// per-thread scratch state: a case that only fails after another one needs both in its replay)
+fn eval_on_fresh_thread(prop: &str, after: &[MutCase], c: &MutCase) -> Option<Violation> {
+    let prop = prop.to_string();
+    let after: Vec<MutCase> = after.to_vec();
+    let c = c.clone();
+    std::thread::spawn(move || {
+        for a in &after {
+            let _ = run_mut_case(a);
+        }
+        if prop == "C15" {
+            eval_c15(&c)
+        } else {
+            eval_c16(&c).1
+        }
+    })
+    .join()
+    .ok()
+    .flatten()
+}
+
+/// a found case that does not fail when executed alone on a fresh thread depends on what the
+/// thread executed before: look for one earlier case of the same round that makes it fail again and
+/// record it in the replay (`after`)
+fn stabilise(prop: &'static str, f: &mut Found2, earlier: &[MutCase]) {
+    let Some(c) = MutCase::from_json(&f.case) else { return };
+    if eval_on_fresh_thread(prop, &[], &c).is_some_and(|v| v.class == f.violation.class) {
+        return;
+    }
+    for a in earlier.iter().filter(|a| a.kind == c.kind) {
+        if eval_on_fresh_thread(prop, std::slice::from_ref(a), &c).is_some_and(|v| v.class == f.violation.class) {
+            if let Some(o) = f.case.as_object_mut() {
+                o.insert("after".into(), json!([a.to_json()]));
+            }
+            f.violation.detail = format!("{} (only after an earlier call on the same thread: {})", f.violation.detail, a.to_json());
+            return;
+        }
+    }
 }
 
 /// replay of a comp case
@@ -1104,8 +1167,11 @@ pub fn replay(prop: &str, case: &Value) -> Vec<Violation> {
     match prop {
         "C18" if case.get("hunt").is_some() => replay_hunt(&case["hunt"]),
         "C18" => SourceCase::from_json(case).and_then(|c| eval_source_case(&c).1).into_iter().collect(),
-        "C15" => MutCase::from_json(case).and_then(|c| eval_c15(&c)).into_iter().collect(),
-        "C16" => MutCase::from_json(case).and_then(|c| eval_c16(&c).1).into_iter().collect(),
+        "C15" | "C16" => {
+            let Some(c) = MutCase::from_json(case) else { return vec![] };
+            let after: Vec<MutCase> = case.get("after").and_then(|a| a.as_array()).map(|a| a.iter().filter_map(MutCase::from_json).collect()).unwrap_or_default();
+            eval_on_fresh_thread(prop, &after, &c).into_iter().collect()
+        }
         _ => vec![],
     }
 }
